@@ -157,6 +157,7 @@ type c20Input struct {
 	Kind     string      `json:"kind"`               // run | join | joinrow | domain
 	N        int         `json:"n,omitempty"`        // joinrow: the other argument runs over all strings over c20Alpha of length <= n
 	Swap     bool        `json:"swap,omitempty"`     // joinrow: A is the name, the prefixes are enumerated
+	Head     string      `json:"head,omitempty"`     // joinrow: fixed head of the enumerated argument (cuts long rows into pieces)
 	Mode     string      `json:"mode,omitempty"`     // new | apply | decl (ParseFields; NewStore{Secrets: f.Secrets()}; f.Apply)
 	Scribble string      `json:"scribble,omitempty"` // decl: what the harness does to the slice Secrets() returned, after NewStore and before Apply: sort | reverse | overwrite | clear | rotate | "" (nothing)
 	Copy     bool        `json:"copy,omitempty"`     // decl: NewStore is given a copy of the slice (only the scribbling touches the original)
@@ -888,7 +889,8 @@ func c20Code(alpha []byte, s string) uint64 {
 func c20JoinRow(in c20Input) Record {
 	others := c20Upto(c20Alpha, in.N)
 	codes := make([]string, len(others))
-	for i, o := range others {
+	for i, w := range others {
+		o := in.Head + w
 		var res string
 		if in.Swap {
 			res = path.Join(o, in.A)
@@ -902,20 +904,32 @@ func c20JoinRow(in c20Input) Record {
 		al[i] = strconv.Itoa(int(a))
 	}
 	return Record{Kind: "joinrow", Input: in, Obs: map[string]any{"pairs": len(others)},
-		Key: fmt.Sprintf("joinrow:%v:%q:%d", in.Swap, in.A, in.N), Nontrivial: in.A != "", Tags: []string{"joinrow"},
-		Coq: fmt.Sprintf("CJoinRow %s %s %s %d%%nat %s", coqList(al), coqBool(in.Swap), coqBytes([]byte(in.A)), in.N, coqList(codes))}
+		Key: fmt.Sprintf("joinrow:%v:%q:%q:%d", in.Swap, in.A, in.Head, in.N), Nontrivial: in.A != "", Tags: []string{"joinrow"},
+		Coq: fmt.Sprintf("CJoinRow %s %s %s %s %d%%nat %s", coqList(al), coqBool(in.Swap), coqBytes([]byte(in.A)), coqBytes([]byte(in.Head)), in.N, coqList(codes))}
 }
 
 // the rows that together cover EVERY pair (prefix, name) over c20Alpha with len(prefix)+len(name) <= total:
 // prefixes of length <= 3 against all names that fit, and names of length <= total-4 against all prefixes that fit
 func c20JoinRows(total int) []c20Input {
 	var rows []c20Input
+	// one fixed argument against every other argument of length <= n; rows longer than 5^6 pairs are cut
+	// by the first byte of the enumerated argument (a 100 000-element list literal overflows coqc's stack)
+	add := func(a string, n int, swap bool) {
+		if n <= 6 {
+			rows = append(rows, c20Input{Kind: "joinrow", A: a, N: n, Swap: swap})
+			return
+		}
+		rows = append(rows, c20Input{Kind: "joinrow", A: a, N: 0, Swap: swap})
+		for _, c := range c20Alpha {
+			rows = append(rows, c20Input{Kind: "joinrow", A: a, Head: string(c), N: n - 1, Swap: swap})
+		}
+	}
 	for _, a := range c20Upto(c20Alpha, 3) {
-		rows = append(rows, c20Input{Kind: "joinrow", A: a, N: total - len(a)})
+		add(a, total-len(a), false)
 	}
 	if total > 4 {
 		for _, b := range c20Upto(c20Alpha, total-4) {
-			rows = append(rows, c20Input{Kind: "joinrow", A: b, N: total - len(b), Swap: true})
+			add(b, total-len(b), true)
 		}
 	}
 	return rows
